@@ -222,7 +222,7 @@ Definition p_read_message (bs : list N) : option (Z * Z * Z * obytes * obytes * 
                     | Some (v, r9) =>
                       let consumed := (length r2 - length r9)%nat in
                       if (size - 4 <? Z.of_nat consumed) then None      (* reads beyond md.remain fail *)
-                      else if (crc =? crc32_ieee (firstn consumed r2))%N then Some (off, attrs, ts, k, v, r9)
+                      else if (crc =? w32 (crc32_ieee (firstn consumed r2)))%N then Some (off, attrs, ts, k, v, r9)
                       else None
                     | None => None
                     end
@@ -369,6 +369,35 @@ Fixpoint p_records (n : nat) (base first : Z) (bs : list N) {struct n} : list or
     end
   end.
 
+(* readFromVersion2 after the CRC field: attributes .. records.  [crc_ok] = the stored CRC
+   equals the CRC-32C the decoder accumulated over attributes..end of the batch *)
+Definition p_batch_tail (base : Z) (crc_ok : bool) (tail rest : list N) : pres (option preader) :=
+  match get_i 2 tail with
+  | Some (attrs, t1) =>
+    match take 34 t1 with                                  (* lastOffsetDelta, first, max, pid, epoch, seq *)
+    | Some (mid, t2) =>
+      let first := get_bes 8 (firstn 8 (skipn 4 mid)) in
+      match get_i 4 t2 with
+      | Some (cnt, payload) =>
+        let c := codec_of attrs in
+        if negb (c =? 0)%N && negb (codec_known c) then PE
+        else
+          let raw := if (c =? 0)%N then payload else decomp' c payload in
+          if negb crc_ok then PE
+          else if cnt <? 0 then PP
+          else
+            let (recs, e) := p_records (Z.to_nat cnt) base first raw in
+            match recs, e with
+            | [], true => PE
+            | _, _ => PR (Some (is_control attrs, recs)) rest
+            end
+      | None => PE
+      end
+    | None => PE
+    end
+  | None => PE
+  end.
+
 (* readFromVersion2 on the bytes that remain in the set *)
 Definition p_read_v2 (bs : list N) : pres (option preader) :=
   match get_i 8 bs with
@@ -382,32 +411,7 @@ Definition p_read_v2 (bs : list N) : pres (option preader) :=
         | Some (body, rest) =>
           match take 9 body with                                     (* leader epoch, magic, crc *)
           | Some (pre, tail) =>
-            let crc := get_be (skipn 5 pre) 0%N in
-            match get_i 2 tail with
-            | Some (attrs, t1) =>
-              match take 34 t1 with                                  (* lastOffsetDelta, first, max, pid, epoch, seq *)
-              | Some (mid, t2) =>
-                let first := get_bes 8 (firstn 8 (skipn 4 mid)) in
-                match get_i 4 t2 with
-                | Some (cnt, payload) =>
-                  let c := codec_of attrs in
-                  if negb (c =? 0)%N && negb (codec_known c) then PE
-                  else
-                    let raw := if (c =? 0)%N then payload else decomp' c payload in
-                    if negb (crc =? crc32c tail)%N then PE
-                    else if cnt <? 0 then PP
-                    else
-                      let (recs, e) := p_records (Z.to_nat cnt) base first raw in
-                      match recs, e with
-                      | [], true => PE
-                      | _, _ => PR (Some (is_control attrs, recs)) rest
-                      end
-                | None => PE
-                end
-              | None => PE
-              end
-            | None => PE
-            end
+            p_batch_tail base (get_be (skipn 5 pre) 0%N =? w32 (crc32c tail))%N tail rest
           | None => PE
           end
         | None => PE
@@ -694,6 +698,43 @@ Fixpoint m_v1 (fuel : nat) (st : list frame) (min : Z) {struct fuel} : mres (ore
     end
   end.
 
+(* one record of readMessageV2: length, attributes, timestamp delta, offset delta, key, value,
+   headers; None = errShortRead somewhere on the way *)
+Definition m_record (h : mhdr) (bs : list N) : option (orec * list N) :=
+  match go_varint 10 bs with
+  | Some (_, r0) =>
+    match get_i 1 r0 with
+    | Some (_, r1) =>
+      match go_varint 10 r1 with
+      | Some (tsd, r2) =>
+        match go_varint 10 r2 with
+        | Some (offd, r3) =>
+          match m_vbytes r3 with
+          | Some (k, r4) =>
+            match m_vbytes r4 with
+            | Some (v, r5) =>
+              match go_varint 10 r5 with
+              | Some (nh, r6) =>
+                match (if 0 <? nh then m_hdrs (Z.to_nat nh) r6 else Some ([], r6)) with
+                | Some (hs, r7) =>
+                  Some (mk_rec (wrap64 (h_first h + offd)) (legacy_ts (wrap64 (h_first_ts h + tsd))) k v hs, r7)
+                | None => None
+                end
+              | None => None
+              end
+            | None => None
+            end
+          | None => None
+          end
+        | None => None
+        end
+      | None => None
+      end
+    | None => None
+    end
+  | None => None
+  end.
+
 (* readMessageV2 *)
 Definition m_v2 (st : list frame) : mres (orec * list frame) :=
   match st with
@@ -725,40 +766,11 @@ Definition m_v2 (st : list frame) : mres (orec * list frame) :=
       | ME e => ME e
       | MR [] => ME MEof
       | MR (cur :: ps) =>
-        match go_varint 10 (f_bs cur) with
-        | Some (_, r0) =>
-          match get_i 1 r0 with
-          | Some (_, r1) =>
-            match go_varint 10 r1 with
-            | Some (tsd, r2) =>
-              match go_varint 10 r2 with
-              | Some (offd, r3) =>
-                match m_vbytes r3 with
-                | Some (k, r4) =>
-                  match m_vbytes r4 with
-                  | Some (v, r5) =>
-                    match go_varint 10 r5 with
-                    | Some (nh, r6) =>
-                      match (if 0 <? nh then m_hdrs (Z.to_nat nh) r6 else Some ([], r6)) with
-                      | Some (hs, r7) =>
-                        match m_mark_read ({| f_bs := r7; f_base := f_base cur; f_count := f_count cur; f_hdr := f_hdr cur |} :: ps) with
-                        | None => ME MPanic
-                        | Some st' =>
-                          MR (mk_rec (wrap64 (h_first h + offd)) (legacy_ts (wrap64 (h_first_ts h + tsd))) k v hs, st')
-                        end
-                      | None => ME MEof
-                      end
-                    | None => ME MEof
-                    end
-                  | None => ME MEof
-                  end
-                | None => ME MEof
-                end
-              | None => ME MEof
-              end
-            | None => ME MEof
-            end
-          | None => ME MEof
+        match m_record h (f_bs cur) with
+        | Some (r, r7) =>
+          match m_mark_read ({| f_bs := r7; f_base := f_base cur; f_count := f_count cur; f_hdr := f_hdr cur |} :: ps) with
+          | None => ME MPanic
+          | Some st' => MR (r, st')
           end
         | None => ME MEof
         end
